@@ -11,7 +11,7 @@ ASSUME = [
     "addresses from a 3-value alphabet with free end-of-stream marks; write data carries a sequence number mod 8 (more than twice the buffering)",
 ]
 RULE = ("complete reachable graph: producer choices x consumer stalls x cmd.ready stalls x memory latency, unbounded; reader: each accepted address yields exactly one word = memory[address], "
-        "in order, `last` on the matching word, accepted-minus-delivered <= fifo_depth; writer: each (address,data) pair reaches memory exactly once, in order, data with its own address, full byte enables")
+        "in order, `last` on the matching word, accepted-minus-delivered <= what the data FIFO really holds (fifo_depth, +1 for a buffered FIFO of depth >= 2), judged at the end of each cycle; writer: each (address,data) pair reaches memory exactly once, in order, data with its own address, full byte enables")
 
 EV_OUT = 1; EV_PROG = 2
 
@@ -20,15 +20,42 @@ def memword(a, dw):
     return (0xA5A5A5A5A5A5A5A5 ^ (a * 0x0101010101010101 * 7)) & ((1 << dw) - 1)
 
 
+class _NS: pass
+
+
+def axi_as_native(axi, mode):
+    """an AXI port seen through the native-port responder in its decoupled (stream) mode: AR/AW = command stream, W = write-data stream whose
+    ready is independent of AW, R = read data held until RREADY - exactly the handshake freedom an AXI slave has"""
+    p = _NS(); p.mode = mode; p.data_width = axi.data_width; p.axi = axi
+    ch = axi.ar if mode == "read" else axi.aw
+    p.cmd = _NS(); p.cmd.valid = ch.valid; p.cmd.ready = ch.ready; p.cmd.addr = ch.addr; p.cmd.we = None; p.cmd.size = ch.size; p.cmd.len = ch.len
+    p.wdata = _NS(); p.wdata.valid = axi.w.valid; p.wdata.ready = axi.w.ready; p.wdata.data = axi.w.data; p.wdata.we = axi.w.strb
+    p.rdata = _NS(); p.rdata.valid = axi.r.valid; p.rdata.ready = axi.r.ready; p.rdata.data = axi.r.data
+    return p
+
+
+def make_port(mode, dw, axi):
+    if axi:
+        from litedram.frontend.axi import LiteDRAMAXIPort
+        ap = LiteDRAMAXIPort(data_width=dw, address_width=4)
+        return ap, axi_as_native(ap, mode)
+    from litedram.common import LiteDRAMNativePort
+    np_ = LiteDRAMNativePort(mode, 4, dw)
+    return np_, np_
+
+
 class ReaderHarness(Harness):
-    def __init__(self, fifo_depth=2, buffered=False, dw=16, naddr=3, wmin=3, rmin=6, qmax=None, decoupled=False):
-        from litedram.common import LiteDRAMNativePort
+    def __init__(self, fifo_depth=2, buffered=False, dw=16, naddr=3, wmin=3, rmin=6, qmax=None, decoupled=False, axi=False):
         from litedram.frontend.dma import LiteDRAMDMAReader
-        port = LiteDRAMNativePort("read", 4, dw)
-        self.dut = dut = LiteDRAMDMAReader(port, fifo_depth=fifo_depth, fifo_buffered=buffered)
-        reads = Responder.reads([port]) + [dut.sink.ready, dut.source.valid, dut.source.data, dut.source.last]
+        real_port, port = make_port("read", dw, axi)
+        if axi: decoupled = True
+        self.axi = axi
+        self.dut = dut = LiteDRAMDMAReader(real_port, fifo_depth=fifo_depth, fifo_buffered=buffered)
+        reads = Responder.reads([port]) + [dut.sink.ready, dut.source.valid, dut.source.data, dut.source.last] + ([port.cmd.size, port.cmd.len] if axi else [])
         self.c = c = fhdl.compile_harness(dut, reads)
         self.dw = dw; self.depth = fifo_depth
+        # what the data FIFO can really hold: a buffered FIFO of depth >= 2 has one extra output register; depth 1 is a plain one-word buffer
+        self.capacity = fifo_depth + (1 if (buffered and fifo_depth >= 2) else 0)
         self.resp = Responder(c, [port], wmin=wmin, rmin=rmin, qmax=qmax or fifo_depth + 2, mem_init=lambda a: memword(a, dw), decoupled=decoupled)
         ii = c.ii
         self.i_valid = ii[dut.sink.valid]; self.i_addr = ii[dut.sink.address]; self.i_last = ii[dut.sink.last]; self.i_ready = ii[dut.source.ready]
@@ -36,6 +63,7 @@ class ReaderHarness(Harness):
         self.alpha = [None] + [(a, l) for a in range(naddr) for l in (0, 1)]
         self.base = list(c.base_inputs)
         self.cov = {}
+        if axi: self.r_size = c.rd(port.cmd.size); self.r_len = c.rd(port.cmd.len)
 
     def env0(self):
         return (None, (), self.resp.init())        # (pending producer item, expected (addr,last) queue, responder)
@@ -71,11 +99,11 @@ class ReaderHarness(Harness):
         if acc:
             if not taken: raise Violation("dma.read_without_address", "a read command was issued although no address was accepted from the sink")
             if acc[0][3] != item[0] or acc[0][2]: raise Violation("dma.read_wrong_address", "read command address %d (we=%d), sink address %d" % (acc[0][3], acc[0][2], item[0]))
+            if self.axi and (self.r_size(S, I, O) != (self.dw // 8).bit_length() - 1 or self.r_len(S, I, O) != 0):
+                self.report("dma.axi_burst_shape", "AR beat with size=%d len=%d: one full-width beat expected" % (self.r_size(S, I, O), self.r_len(S, I, O)))
         if taken:
             if not acc: raise Violation("dma.address_dropped", "an address was accepted from the sink but no read command was issued for it")
             exp = exp + (item,); item = None; prog = True
-        if len(exp) > self.depth:
-            self.report("dma.reader_overrun", "%d reads accepted and not yet delivered, FIFO depth %d" % (len(exp), self.depth))
         if cr and self.r_valid(S, I, O):
             if not exp: raise Violation("dma.word_without_address", "a data word was emitted although no read is outstanding")
             a, l = exp[0]; exp = exp[1:]; prog = True
@@ -83,6 +111,9 @@ class ReaderHarness(Harness):
             if d != memword(a, self.dw): self.report("dma.reader_data", "emitted %x, expected memory[%d] = %x" % (d, a, memword(a, self.dw)))
             if self.r_last(S, I, O) != l: self.report("dma.reader_last", "end-of-stream mark %d on the word of address %d, expected %d" % (self.r_last(S, I, O), a, l))
             self.cov["words"] = self.cov.get("words", 0) + 1
+        # judged at the end of the cycle: a one-word buffer may hand over a word and take the next reservation in the same cycle
+        if len(exp) > self.capacity:
+            self.report("dma.reader_overrun", "%d reads accepted and not yet delivered, the data FIFO holds %d words (fifo_depth %d%s)" % (len(exp), self.capacity, self.depth, ", buffered" if self.capacity > self.depth else ""))
         ev = 0
         coop = cr == 1 and rch == self.resp.default_choice(rs)
         if coop and (pend is not None or exp or rs[0]): ev |= EV_OUT
@@ -95,12 +126,13 @@ class ReaderHarness(Harness):
 class WriterHarness(Harness):
     M = 8
 
-    def __init__(self, fifo_depth=2, buffered=False, dw=16, naddr=3, wmin=3, rmin=6, qmax=None, decoupled=False):
-        from litedram.common import LiteDRAMNativePort
+    def __init__(self, fifo_depth=2, buffered=False, dw=16, naddr=3, wmin=3, rmin=6, qmax=None, decoupled=False, axi=False):
         from litedram.frontend.dma import LiteDRAMDMAWriter
-        port = LiteDRAMNativePort("write", 4, dw)
-        self.dut = dut = LiteDRAMDMAWriter(port, fifo_depth=fifo_depth, fifo_buffered=buffered)
-        reads = Responder.reads([port]) + [dut.sink.ready]
+        real_port, port = make_port("write", dw, axi)
+        if axi: decoupled = True
+        self.axi = axi
+        self.dut = dut = LiteDRAMDMAWriter(real_port, fifo_depth=fifo_depth, fifo_buffered=buffered)
+        reads = Responder.reads([port]) + [dut.sink.ready] + ([port.cmd.size, port.cmd.len, real_port.b.ready] if axi else [])
         self.c = c = fhdl.compile_harness(dut, reads)
         self.dw = dw; self.depth = fifo_depth
         self.resp = Responder(c, [port], wmin=wmin, rmin=rmin, qmax=qmax or fifo_depth + 2, decoupled=decoupled)
@@ -110,6 +142,7 @@ class WriterHarness(Harness):
         self.naddr = naddr
         self.base = list(c.base_inputs)
         self.cov = {}
+        if axi: self.r_size = c.rd(port.cmd.size); self.r_len = c.rd(port.cmd.len); self.r_bready = c.rd(real_port.b.ready)
 
     def word(self, seq):
         return (seq * 0x1111 + 0x8000) & ((1 << self.dw) - 1)
@@ -150,6 +183,8 @@ class WriterHarness(Harness):
                 if not ecmd: raise Violation("dma.write_without_pair", "a write command was issued although no (address,data) pair is pending")
                 (ea, es) = ecmd[0]; ecmd = ecmd[1:]
                 if e[3] != ea: self.report("dma.writer_address", "write command address %d, expected %d" % (e[3], ea))
+                if self.axi and (self.r_size(S, I, O) != (self.dw // 8).bit_length() - 1 or self.r_len(S, I, O) != 0):
+                    self.report("dma.axi_burst_shape", "AW beat with size=%d len=%d: one full-width beat expected" % (self.r_size(S, I, O), self.r_len(S, I, O)))
                 edat = edat + ((ea, es),)
             elif e[0] == "w":
                 if not edat: raise Violation("dma.write_data_without_command", "write data strobe without command")
@@ -157,6 +192,8 @@ class WriterHarness(Harness):
                 if e[2] != ea or e[3] != self.word(es) or e[4] != (1 << (self.dw // 8)) - 1:
                     self.report("dma.writer_data", "memory[%d] <- %x (we=%x), expected memory[%d] <- %x with all bytes enabled" % (e[2], e[3], e[4], ea, self.word(es)))
                 self.cov["words"] = self.cov.get("words", 0) + 1
+        if self.axi and not self.r_bready(S, I, O):
+            self.report("dma.axi_b_not_taken", "B channel not ready: write responses would pile up in the slave")
         if len(ecmd) > 1:
             # command and FIFO push happen in the same cycle by design: a pair accepted from the sink must be at the memory port at once
             self.report("dma.writer_pair_split", "pair accepted from the sink without its write command being accepted")
@@ -179,14 +216,22 @@ def configs(tier):
     cs = []
     if tier == "quick":
         cs += [("reader-d2", "build_reader", dict(fifo_depth=2)), ("reader-d3-buffered", "build_reader", dict(fifo_depth=3, buffered=True, naddr=1)),
+               ("reader-d1", "build_reader", dict(fifo_depth=1)), ("reader-d1-buffered", "build_reader", dict(fifo_depth=1, buffered=True)),
+               ("writer-d1", "build_writer", dict(fifo_depth=1)), ("writer-d1-buffered", "build_writer", dict(fifo_depth=1, buffered=True)),
                ("writer-d2", "build_writer", dict(fifo_depth=2)), ("writer-d4-buffered", "build_writer", dict(fifo_depth=4, buffered=True, naddr=2)),
                # the same cores on a port behind stream buffering (CDC / converted port): write data ready independent of commands, read data with back-pressure
+               ("reader-d2-axi", "build_reader", dict(fifo_depth=2, naddr=2, axi=True)), ("writer-d2-axi", "build_writer", dict(fifo_depth=2, naddr=2, axi=True)),
+               ("reader-d1-buffered-axi", "build_reader", dict(fifo_depth=1, buffered=True, naddr=2, axi=True)), ("writer-d1-axi", "build_writer", dict(fifo_depth=1, naddr=2, axi=True)),
                ("reader-d2-streamport", "build_reader", dict(fifo_depth=2, naddr=2, decoupled=True)), ("writer-d2-streamport", "build_writer", dict(fifo_depth=2, naddr=2, decoupled=True))]
     else:
-        for d in (2, 3, 4, 8):
+        for d in (1, 2, 3, 4, 8):
             for b in (False, True):
                 cs.append(("reader-d%d%s" % (d, "-buffered" if b else ""), "build_reader", dict(fifo_depth=d, buffered=b, naddr=3 if d <= 2 else (2 if d == 3 else 1))))
                 cs.append(("writer-d%d%s" % (d, "-buffered" if b else ""), "build_writer", dict(fifo_depth=d, buffered=b, naddr=3 if d <= 4 else 2)))
+        for d in (1, 2, 3, 4):
+            for b in (False, True):
+                cs.append(("reader-d%d%s-axi" % (d, "-buffered" if b else ""), "build_reader", dict(fifo_depth=d, buffered=b, naddr=2, axi=True)))
+                cs.append(("writer-d%d%s-axi" % (d, "-buffered" if b else ""), "build_writer", dict(fifo_depth=d, buffered=b, naddr=2, axi=True)))
         cs.append(("reader-d2-fastmem", "build_reader", dict(fifo_depth=2, rmin=1)))
     return cs
 
